@@ -194,3 +194,49 @@ func aspectCorpus(r *rand.Rand) []namedFile {
 	add("lossy+alpha-12000x10", "flat", "gradient", 12000, 10, func(o *webp.EncoderOptions) {})
 	return out
 }
+
+// muxAnimCorpus: animations assembled with the Muxer from independently encoded small pictures: explicit
+// canvas, every frame (the first included) a sub-rectangle at an even offset, mixed codecs, all
+// dispose/blend combinations - layouts the animation encoder itself never writes.
+func muxAnimCorpus(r *rand.Rand, n int) []namedFile {
+	var out []namedFile
+	for i := 0; len(out) < n && i < 4*n; i++ {
+		cw, ch := 8+r.Intn(60), 8+r.Intn(60)
+		m := mux.NewMuxer()
+		m.SetCanvasSize(cw, ch)
+		m.SetLoopCount(r.Intn(5))
+		nf := 2 + r.Intn(4)
+		ok := true
+		for f := 0; f < nf && ok; f++ {
+			fw, fh := 1+r.Intn(cw), 1+r.Intn(ch)
+			if f == 0 && i%2 == 0 { // a small first frame away from the origin
+				fw, fh = 1+r.Intn(max(1, cw/3)), 1+r.Intn(max(1, ch/3))
+			}
+			ox, oy := 2*r.Intn((cw-fw)/2+1), 2*r.Intn((ch-fh)/2+1)
+			o := webp.DefaultOptions()
+			o.Lossless = r.Intn(2) == 0
+			d, err := encode(img.Gen(r, img.Pick(r, img.Classes), pickS(r, "opaque", "binary", "gradient"), fw, fh), o)
+			if err != nil {
+				ok = false
+				break
+			}
+			chs := riffChunks(d)
+			var bs []byte
+			if p, has := chs["VP8L"]; has {
+				bs = p
+			} else if p, has := chs["VP8 "]; has {
+				if a, hasA := chs["ALPH"]; hasA {
+					bs = append(append([]byte{}, chunk("ALPH", a)...), chunk("VP8 ", p)...)
+				} else {
+					bs = p
+				}
+			}
+			ok = bs != nil && m.AddFrame(bs, &mux.FrameOptions{Duration: 10 + r.Intn(90), OffsetX: ox, OffsetY: oy, BlendMode: mux.BlendMode(r.Intn(2)), DisposeMode: mux.DisposeMode(r.Intn(2))}) == nil
+		}
+		var b bytes.Buffer
+		if ok && m.Assemble(&b) == nil {
+			out = append(out, namedFile{Name: "mux-anim", Data: b.Bytes(), Anim: true})
+		}
+	}
+	return out
+}
